@@ -2,7 +2,7 @@ open Model
 open Common
 
 (* operand values:  f<hex> fixnum | c<hex> cursor | h<hex> char | i immediate | p<T>:<len hex>:<0|1> object *)
-let tag_of = function "P" -> TPair | "V" -> TVector | "B" -> TBytes | "S" -> TString | _ -> TOther
+let tag_of = function "P" -> TPair | "V" -> TVector | "B" -> TBytes | "S" -> TString | "I" -> TIPort | "W" -> TOPort | _ -> TOther
 let rest s = String.sub s 1 (String.length s - 1)
 let val_of (s : string) : val0 =
   match s.[0] with
@@ -23,6 +23,8 @@ let prim_of = function
   | "string-cursor-end" -> PrStringCursorEnd | "string-length" -> PrStringLength
   | "car" -> PrCar | "cdr" -> PrCdr | "set-car!" -> PrSetCar | "set-cdr!" -> PrSetCdr
   | "make-vector" -> PrMakeVector
+  | "char->integer" -> PrCharToInt | "integer->char" -> PrIntToChar | "char-upcase" -> PrCharUpcase | "char-downcase" -> PrCharDowncase
+  | "write-char" -> PrWriteChar | "read-char" -> PrReadChar | "peek-char" -> PrPeekChar
   | s -> failwith ("unknown primitive " ^ s)
 
 let string_of_verdict = function MustValue -> "V" | MustError -> "E" | Either -> "X"
@@ -55,6 +57,11 @@ let handle = function
   | ["index2cursor"; h; a] ->
      let (o, j) = prim_index_to_cursor (bytes_of_hex (if h = "-" then "" else h)) (val_of a) in
      (match o with POk _ -> "V " ^ hex_of_z j | _ -> string_of_outcome o)
+  | ["utf8ref"; h; i] -> string_of_outcome (prim_utf8_ref_checked (bytes_of_hex (if h = "-" then "" else h)) (z_of_hex i))
+  | ["utf8set"; h; i; n] ->
+     (* all regions of the repaired string-set! inside their buffers?  and the length of the new byte store *)
+     let rs = prim_utf8_set true (bytes_of_hex (if h = "-" then "" else h)) (z_of_hex i) (z_of_hex n) in
+     (if List.for_all in_boundsb rs then "V " else "O ") ^ (match List.rev rs with r :: _ -> hex_of_z r.r_cap | [] -> "-")
   | ["fix2cur"; z] -> hex_of_z (fix_to_cur (z_of_hex z))
   | ["ensure"; m; l; t; n] -> string_of_grow (gen_ensure_stack (z_of_hex m) (z_of_hex l) (z_of_hex t) (z_of_hex n))
   | "wtrunc" :: wb :: lines ->
